@@ -8,6 +8,7 @@ import (
 	"errors"
 	"fmt"
 	"io"
+	"io/fs"
 	"os"
 
 	"github.com/avfs/avfs"
@@ -50,6 +51,8 @@ type CopyRun struct {
 	DstOk    bool          `json:"dstok"`
 	PermOk   bool          `json:"permok"`
 	SumOk    bool          `json:"sumok"`
+	SrcMode  int           `json:"srcmode"`
+	DstPre   bool          `json:"dstpre"`
 	Err      string        `json:"err"`
 }
 
@@ -161,8 +164,23 @@ func runCopy(id int, p CopyPlan, pair [2]string, scratch string) (r CopyRun, err
 		return r, err
 	}
 
-	if err := srcBase.Chmod(srcPath, 0o640); err != nil {
+	// the source mode and the state of the destination vary with the run: three source modes (one of them the
+	// default mode of a new file), and every other run the destination already exists - longer, with another
+	// mode - so that "the copy leaves the source's permission bits" is not satisfied by accident
+	srcMode := []fs.FileMode{0o640, 0o644, 0o600}[id%3]
+	if err := srcBase.Chmod(srcPath, srcMode); err != nil {
 		return r, err
+	}
+
+	r.SrcMode, r.DstPre = int(srcMode), (id/3)%2 == 1
+	if r.DstPre {
+		if err := dstBase.WriteFile(dstPath, append(append([]byte{}, data...), 1, 2, 3), 0o600); err != nil {
+			return r, err
+		}
+
+		if err := dstBase.Chmod(dstPath, 0o600); err != nil {
+			return r, err
+		}
 	}
 
 	counts := map[string]int{}
@@ -225,7 +243,7 @@ func runCopy(id int, p CopyPlan, pair [2]string, scratch string) (r CopyRun, err
 		r.DstOk = err == nil && bytes.Equal(got, data)
 
 		fi, err := dstBase.Stat(dstPath)
-		r.PermOk = err == nil && fi.Mode().Perm() == 0o640
+		r.PermOk = err == nil && fi.Mode().Perm() == srcMode
 	}
 
 	return r, nil
